@@ -163,7 +163,9 @@ func (cks KeySwitchProtocol) AggregateShares(share1, share2 KeySwitchShare, shar
 // KeySwitch performs the actual keyswitching operation on a ciphertext ct and put the result in opOut
 func (cks KeySwitchProtocol) KeySwitch(ctIn *rlwe.Ciphertext, combined KeySwitchShare, opOut *rlwe.Ciphertext) {
 
-	level := ctIn.Level()
+	// The shares are generated at the smallest of the levels of the share and of the ciphertext:
+	// the result is a ciphertext at that level.
+	level := utils.Min(ctIn.Level(), combined.Value.Level())
 
 	if ctIn != opOut {
 
@@ -172,6 +174,9 @@ func (cks KeySwitchProtocol) KeySwitch(ctIn *rlwe.Ciphertext, combined KeySwitch
 		opOut.Value[1].CopyLvl(level, ctIn.Value[1])
 
 		*opOut.MetaData = *ctIn.MetaData
+
+	} else {
+		opOut.Resize(opOut.Degree(), level)
 	}
 
 	cks.params.RingQ().AtLevel(level).Add(ctIn.Value[0], combined.Value, opOut.Value[0])
